@@ -245,6 +245,34 @@ PROPS = {
     trusted_base=['signature verification, key generation and crypto/rand are real in the run and oracles in the model (honest-signer law built into `verifies`)', 'x/crypto agent client/server and keyring', 'mapstructure decoding of the handler configuration (the algorithm-name hook is modelled in the driver)'],
     assumptions=['fatal runtime errors that recover cannot catch are out of scope'],
  ),
+ 'C17': dict(
+    group='crypki', only=['sign', 'backoff'], ops=['sign', 'backoff'],
+    klass=lambda c: c['op'] + ':' + ((c['model'] or ['?'])[0].split(' ')[0] if c['op'] == 'sign' else 'att' + ('0' if c['args'][4] == '0' else '+')) ,
+    compare=lambda c: None if c['op'] == 'backoff' else (c['model'] == c['impl']),
+    modules=['Ysshra.Props.C17', 'Ysshra.Props.C17Backoff', 'Ysshra.Bridge.Crypki'],
+    theorem_files=['Props/C17.lean', 'Props/C17Backoff.lean', 'Bridge/Crypki.lean'],
+    anchors=['crypki/', 'tlsutils/', 'internal/backoff/', 'sshutils/key/parse.go'],
+    n=dict(quick=120, thorough=3000),
+    timeout=dict(quick=900, thorough=3400),
+    trivial=lambda c: (c['op'] == 'sign' and c['args'][0] == '-') or (c['op'] == 'backoff' and c['args'][4] == '0'),
+    rule='sign: the real crypki.NewSigner + Sign (Retries=1, per-try timeout 1.5 s) against 0..4 real TLS gRPC Signing servers on 127.0.0.1..4 sharing one port; per endpoint an identity (issued by configured CA 1 / CA 2, by another CA, self-signed, expired, not yet valid, valid for another address, TLS-1.1-only, nothing listening), a client-certificate mode (none / request / require-and-verify / require with a foreign client CA) and a behaviour (1..3 certificates with / without / multi-word comments, unparsable lines mixed in, empty or garbage key text, RPC error codes 2/4/7/13/14/16, reply after the deadline); bundles of 1 or 2 CA files. Observed: result, requests seen per endpoint, client certificate seen, request fields unmodified. backoff: base x multiplier x maximum x jitter x attempt (0 .. 2^32-1) grids incl. base 0 and attempts where the power overflows; the Go results of 6 draws must lie in the rational interval of the model. Non-trivial = at least one endpoint configured / attempt > 0; distinct = distinct argument fields.',
+    trusted_base=["crypto/tls, crypto/x509, gRPC and grpc_retry implement the handshake, chain building and retry policy (the TLS acceptance rule is Go's documented client behaviour, exercised by real handshakes)", 'ssh.ParseAuthorizedKey decides which reply lines are keys', 'IEEE-754 arithmetic of Backoff is only sampled (bound proved over Q)'],
+    assumptions=['Sign / Backoff as repaired for F8 / F9a; known finding F9b'],
+ ),
+ 'C18': dict(
+    group='crypki', only=['sign'], ops=['sign'],
+    klass=lambda c: c['op'] + ':' + ((c['model'] or ['?'])[0].split(' ')[0] if c['op'] == 'sign' else 'att' + ('0' if c['args'][4] == '0' else '+')) ,
+    compare=lambda c: c['model'] == c['impl'],
+    modules=['Ysshra.Props.C18', 'Ysshra.Bridge.Crypki'],
+    theorem_files=['Props/C18.lean', 'Bridge/Crypki.lean'],
+    anchors=['crypki/', 'tlsutils/', 'internal/backoff/', 'sshutils/key/parse.go'],
+    n=dict(quick=120, thorough=3000),
+    timeout=dict(quick=900, thorough=3400),
+    trivial=lambda c: (c['op'] == 'sign' and c['args'][0] == '-') or (c['op'] == 'backoff' and c['args'][4] == '0'),
+    rule='sign: the real crypki.NewSigner + Sign (Retries=1, per-try timeout 1.5 s) against 0..4 real TLS gRPC Signing servers on 127.0.0.1..4 sharing one port; per endpoint an identity (issued by configured CA 1 / CA 2, by another CA, self-signed, expired, not yet valid, valid for another address, TLS-1.1-only, nothing listening), a client-certificate mode (none / request / require-and-verify / require with a foreign client CA) and a behaviour (1..3 certificates with / without / multi-word comments, unparsable lines mixed in, empty or garbage key text, RPC error codes 2/4/7/13/14/16, reply after the deadline); bundles of 1 or 2 CA files. Observed: result, requests seen per endpoint, client certificate seen, request fields unmodified. backoff: base x multiplier x maximum x jitter x attempt (0 .. 2^32-1) grids incl. base 0 and attempts where the power overflows; the Go results of 6 draws must lie in the rational interval of the model. Non-trivial = at least one endpoint configured / attempt > 0; distinct = distinct argument fields.',
+    trusted_base=["crypto/tls, crypto/x509, gRPC and grpc_retry implement the handshake, chain building and retry policy (the TLS acceptance rule is Go's documented client behaviour, exercised by real handshakes)", 'ssh.ParseAuthorizedKey decides which reply lines are keys', 'IEEE-754 arithmetic of Backoff is only sampled (bound proved over Q)'],
+    assumptions=['that crypto/tls implements clientAccepts is assumed (partial)'],
+ ),
 }
 
 NOT_APPLICABLE = {}
@@ -363,4 +391,16 @@ MANIFEST_TEXT = {
     design_ref='DESIGN.md §7 C04',
     note=_NOTE + 'fatal runtime errors that recover cannot catch are out of scope.',
     technique='Lean 4 proof (case analysis of Run, trace ordering) + fault-injection correspondence'),
+ 'C17': dict(
+    text='Lean theorems for every endpoint list and reply vector: contacted endpoints are a prefix of the configured list; a success is the answer of the last contacted endpoint with all earlier ones failed and none later contacted; all failing → every endpoint tried, error; none configured → error; a success has at least one certificate and one comment per certificate in the CA order; '
+         'back-off over Q: 0 <= delay <= max(1+jitter) for every attempt number under the stated configuration constraints (Mathlib tactics). Loop, reply parser and Backoff statements are regenerated and pinned; the real Signer is run against real TLS gRPC servers.',
+    design_ref='DESIGN.md §7 C17',
+    note=_NOTE + 'gRPC / TLS stack trusted; IEEE-754 and float→int64 conversion only sampled (partial); known finding F9b.',
+    technique='Lean 4 proof (induction over the endpoint list; ordered-field inequality) + correspondence with real gRPC/TLS servers'),
+ 'C18': dict(
+    text='Lean theorems: the TLS configuration record regenerated from tlsutils/config.go never disables or replaces verification, trusts exactly the configured files, has effective minimum version >= TLS 1.2 (explicit or Go default) and presents a client certificate; with it the client accepts a server iff it offers TLS >= 1.2, chains to a configured CA and matches the endpoint name; '
+         'a signing call succeeds only via an accepted server, and impostors at any position are failed endpoints so a later genuine endpoint still serves (corollaries of C17). Real handshakes against servers of every identity kind.',
+    design_ref='DESIGN.md §7 C18',
+    note=_NOTE + 'crypto/tls and crypto/x509 path validation are the reference (partial).',
+    technique='Lean 4 proof over the regenerated TLS configuration record + real-handshake correspondence'),
 }
